@@ -87,6 +87,18 @@ Proof.
   den_simpl. repeat split; field.
 Qed.
 
+(* ---------- the classes constructed through keywords in shuffled order ---------- *)
+Lemma keyword_construction s1 s2 s3 m0 m1 m2 m3 o x y z :
+  denR (envK x y z) gen_kallen_kw = kallenR x y z /\
+  denR (envM s1 s2 s3 m0 m1 m2 m3 o) gen_kibble_kw_masses_first = denR (envM s1 s2 s3 m0 m1 m2 m3 o) gen_kibble /\
+  denR (envM s1 s2 s3 m0 m1 m2 m3 o) gen_kibble_kw_mixed = denR (envM s1 s2 s3 m0 m1 m2 m3 o) gen_kibble /\
+  denR (envM s1 s2 s3 m0 m1 m2 m3 o) gen_kibble_kw_reversed = denR (envM s1 s2 s3 m0 m1 m2 m3 o) gen_kibble.
+Proof.
+  unfold gen_kallen_kw, gen_kibble_kw_masses_first, gen_kibble_kw_mixed, gen_kibble_kw_reversed, gen_kibble,
+    envK, envM, kallenR.
+  den_simpl. repeat split; field.
+Qed.
+
 (* Rest frame of the parent: total three-momentum zero, m0 = E1+E2+E3. *)
 Lemma kibble_event
   E1 x1 y1 z1 E2 x2 y2 z2 E3 x3 y3 z3 m0 m1 m2 m3 o :
